@@ -9,6 +9,7 @@ CONSTANTS
   Panic = {"silent"}
   BadInit = {"die"}
   PostShutdown = {"die"}
+  CancelDesign = "flag"
   SyncWire = FALSE
 VIEW view
 INVARIANTS TypeOK ExactlyOne
